@@ -24,6 +24,10 @@ def _leaf(r, rng, var, dep_on=None, dimn=None, allow_filter=True, n=None, classe
     cls = r.choice(classes or ("RandomUniform", "RandomUniform", "Grid", "Grid", "LHS", "Gaussian"))
     if cls in ("LHS", "Gaussian") and G.is_boundary(dom):
         cls = "RandomUniform"
+    if dom["k"] == "iv" and not G.free_vars(dom) and classes is None and r.random() < 0.25:
+        # the non-equidistant interval grid (builds its grid from len(self))
+        return {"s": "leaf", "cls": "ExpInterval", "dom": dom, "n": n or r.choice((1, 2, 3, 5, 8, 16)),
+                "exp": r.choice((0.5, 2.0, 3.0))}
     node = {"s": "leaf", "cls": cls, "dom": dom}
     if n is None and cls in ("RandomUniform", "Grid") and r.random() < 0.2 and not (dep_on and G.free_vars(dom)):
         node["d"] = r.choice((0.5, 2.0, 7.5, 20.0))
